@@ -410,7 +410,15 @@ def corpus(base):
     cases.append([P(A1), ("call", "call", C + 1, 2000), ("call", "call", C + 2, 7), ("return",), ("balance", A1), ("balance", T)])  # pranked payer cannot pay
     cases.append([P(A3), ("call", "call", C + 1, 7), ("balance", A3), ("balance", T)])                                            # A3 holds nothing, this does
     cases.append([("call", "delegate", C + 1, 0), P(A1, False, A2), ("call", "callcode", C + 2, 0), ("return",), ("call", "delegate", C + 3, 0)])
-    return [{"ops": c, "bal": dict(bal)} for c in cases]
+    out = [{"ops": c, "bal": dict(bal)} for c in cases]
+    # outside the fragment of the theorem (a value-bearing CALLCODE under a prank of another address: halmos moves
+    # nothing): what the entered frame sees and whether the call is refused -- decided on the PRANKED account's
+    # balance -- are still compared, the balance reads are not
+    rich = dict(bal)
+    rich[T] = 1000
+    out.append({"ops": [P(A1), ("call", "callcode", C + 1, 60), ("return",), ("call", "callcode", C + 2, 7)], "bal": dict(bal)})
+    out.append({"ops": [P(A2, True), ("call", "callcode", C + 1, 60), ("call", "callcode", C + 2, 3), ("return",), ("stopPrank",), ("call", "callcode", C + 3, 60)], "bal": rich})
+    return out
 
 
 def resolve(base, case, created):
@@ -490,7 +498,10 @@ def tie(base, rep, m, tier, r):
         else:
             tr = paths[0][0]
         shown = {"kinds_ops": ops, "balances": {hex(a): v for a, v in c["bal"].items()}, "implementation": tr if len(paths) <= 1 else [p[0] for p in paths], "spec": spec}
-        if in_scope and tr != spec:
+        differs = tr != spec
+        if not in_scope and len(paths) == 1:
+            differs = [x for x in tr if x[0] != 2] != [x for x in spec if x[0] != 2]
+        if differs:
             nbad += 1
             first = next((i for i, (a, b) in enumerate(zip(tr, spec)) if a != b), min(len(tr), len(spec)))
             # which call the first difference belongs to
